@@ -6,8 +6,8 @@ import json, os, re, subprocess, sys, time
 
 ID, L = sys.argv[1], sys.argv[2]
 OUT = "/tmp/mut/%s/OUT" % ID
-WT = "/tmp/mutverify"
-ENV = dict(os.environ, CARGO_NET_OFFLINE="true", CARGO_TARGET_DIR="/tmp/mutverify-target")
+WT = "/tmp/mutverify" + os.environ.get("MV", "")
+ENV = dict(os.environ, CARGO_NET_OFFLINE="true", CARGO_TARGET_DIR="/tmp/mutverify-target" + os.environ.get("MV", ""))
 
 def sh(cmd, **kw):
     p = subprocess.run(cmd, shell=True, stdout=subprocess.PIPE, stderr=subprocess.STDOUT, text=True, env=ENV, **kw)
